@@ -155,6 +155,22 @@ pub fn run(ctx: &Ctx) -> i32 {
             check_case(ctx, st, &tcs, s0);
         }
     });
+    // medium-sized inputs: many / long test cases, many distinct symbols, long repeats, deep prefix chains
+    {
+        let n = if ctx.thorough { 8000 } else { 500 };
+        let names = ["ab", "abc", "mixed", "meta", "graph", "clusters", "astral"];
+        let als: Vec<Vec<String>> = names.iter().map(|a| gen::alphabet(a)).collect();
+        par_for(&ctx.run, n, |i, st| {
+            let mut rng = Rng::new(seed, 0x21_0000 + i as u64);
+            let tcs = gen::medium_family(&mut rng, &als[i % als.len()]);
+            let tcs: Vec<String> = tcs.into_iter().filter(|t| !t.is_empty()).collect();
+            if tcs.is_empty() {
+                return;
+            }
+            st.count("medium_sized_inputs");
+            check_case(ctx, st, &tcs, s0);
+        });
+    }
     let n = if ctx.thorough { 500_000 } else { 30_000 };
     let alphabets: Vec<(String, Vec<String>)> = gen::ALPHABETS.iter().map(|a| (a.to_string(), gen::alphabet(a))).collect();
     par_for(&ctx.run, n, |i, st| {
